@@ -53,6 +53,7 @@ type streamGen struct {
 	recTypes   []recType
 	pendingFwd []string // forward-referenced ids that still need a definition (any type)
 	usedIDs    map[string]bool
+	markerOdds int // a value carries a marker or is a reference with probability 1/markerOdds
 	openLists  int // lists currently open (forward references are only made where a later sibling can define the marker)
 }
 
@@ -82,7 +83,10 @@ func Stream(r *rand.Rand, o StreamOpts) []ev.Event {
 	if o.MaxComments == 0 {
 		o.MaxComments = 4
 	}
-	g := &streamGen{r: r, o: o, budget: o.Size, usedIDs: map[string]bool{}}
+	g := &streamGen{r: r, o: o, budget: o.Size, usedIDs: map[string]bool{}, markerOdds: 14}
+	if r.Intn(4) == 0 {
+		g.markerOdds = 3 // marker-dense documents: several markers and references per container
+	}
 	g.emit(ev.Event{K: ev.BD})
 	g.emit(ev.Event{K: ev.VER, U: 0})
 	if o.Records && r.Intn(3) == 0 {
@@ -205,10 +209,7 @@ func keyCanon(evs []ev.Event) string {
 	if s == "num=-0" {
 		s = "num=0"
 	}
-	// strings and resource IDs with equal text never share a map either
-	if strings.HasPrefix(s, "array=rid:") {
-		s = "array=str:" + s[len("array=rid:"):]
-	}
+	// a string and a resource ID with equal text are different keys and may share a map
 	return s
 }
 
@@ -229,7 +230,7 @@ func (g *streamGen) value(depth int, keyableOnly bool, allowNull bool) {
 		g.emit(ev.Event{K: ev.REF, B: []byte(id)})
 		return
 	}
-	if g.o.Markers && r.Intn(14) == 0 {
+	if g.o.Markers && r.Intn(g.markerOdds) == 0 {
 		if len(g.markers) > 0 && r.Intn(2) == 0 {
 			m := g.markers[r.Intn(len(g.markers))]
 			g.emit(ev.Event{K: ev.REF, B: []byte(m.id)})
@@ -762,6 +763,16 @@ var Torture = []string{"", "a", "hello world", "\x00", "\t", "\n", "\r\n", "\"",
 	"\u202e", "\U0001F600", "\u00e9", "\u65e5\u672c\u8a9e", "\x7f", "\u0080", "\u009f", "\ufeff", "\ufffd", "\U0010FFFF", "\ud7ff", "\ue000", "\u3000", "  x  ", "{", "}", "[", "]", "(", ")", "<", ">",
 	"@", "#", "$", "%", "&", "=", ":", ";", ",", ".", "'", "`", "~", "^", "\x01", "\x1b", "\x1f", "\u20ac", "\u00df", "\\n", "\\[41]", "\\.", "null", "true", "1", "-1.5", "0x10", "e\u0301", "\u200d", "\u0300"}
 
+var awkwardRunes = [][]rune{
+	{0xf8ff, 0xe0a0, 0xefff, 0xf0000 + 0xa0a0, 0x10fffd, 0xe000},   // private use
+	{0x0378, 0x0530, 0x2065, 0xfff0, 0x1fffe - 0x1000, 0xe0080},    // unassigned
+	{0xffff, 0xfffe, 0xfdd0, 0x1ffff, 0x10ffff},                    // noncharacters
+	{0x200b, 0x200e, 0x2028, 0x2029, 0x202e, 0x2060, 0xfeff, 0xad}, // format / separators
+	{0x0300, 0x0301, 0x20d0, 0xfe0f, 0x1f3fb},                      // combining / modifiers
+	{0x80, 0x85, 0x9f, 0xa0},                                       // C1 controls, NBSP
+	{0x7f, 0x01, 0x1f, 0x0b, 0x0c},                                 // C0 controls
+}
+
 func TextValue(r *rand.Rand, maxLen int, safe bool) string {
 	var sb strings.Builder
 	if safe {
@@ -771,7 +782,23 @@ func TextValue(r *rand.Rand, maxLen int, safe bool) string {
 		}
 		return sb.String()
 	}
-	switch r.Intn(4) {
+	switch r.Intn(5) {
+	case 4:
+		// plain letters around 1-3 code points of ONE awkward class (private use, unassigned, noncharacters, format and
+		// separator characters, combining marks, C1 controls), with nothing else in the string that would need an escape
+		class := awkwardRunes[r.Intn(len(awkwardRunes))]
+		for i := 1 + r.Intn(3); i > 0; i-- {
+			for j := r.Intn(4); j > 0; j-- {
+				sb.WriteByte(byte('a' + r.Intn(26)))
+			}
+			sb.WriteRune(class[r.Intn(len(class))])
+		}
+		for j := r.Intn(3); j > 0; j-- {
+			sb.WriteByte(byte('a' + r.Intn(26)))
+		}
+		if sb.Len() > maxLen && maxLen > 0 {
+			return "\uf8ff"
+		}
 	case 0:
 		return Torture[r.Intn(len(Torture))]
 	case 1:
@@ -1044,9 +1071,51 @@ func (g *streamGen) mapc(depth int) {
 		}
 		g.pseudo()
 		g.value(depth+1, false, true)
+		// twin key: the same text as a string/resource-id key just emitted, in the other type (a string and a
+		// resource ID with equal text are different keys), delivered whole
+		if text, at, ok := stringKeyText(kev); ok && g.r.Intn(4) == 0 && !keys["ref-present"] {
+			twin := events.ArrayTypeResourceID
+			if at == events.ArrayTypeResourceID {
+				twin = events.ArrayTypeString
+			}
+			te := []ev.Event{{K: ev.STRARR, AT: twin, S: text}}
+			if tk := keyCanon(te); !keys[tk] {
+				keys[tk] = true
+				g.pseudo()
+				g.emit(te[0])
+				g.pseudo()
+				g.value(depth+1, false, true)
+			}
+		}
 	}
 	g.pseudo()
 	g.emit(ev.Event{K: ev.END})
+}
+
+// stringKeyText returns the text and type of a string or resource-id key given by its events (whole or chunked, unmarked).
+func stringKeyText(kev []ev.Event) (string, events.ArrayType, bool) {
+	if len(kev) == 0 {
+		return "", 0, false
+	}
+	e := kev[0]
+	if e.AT != events.ArrayTypeString && e.AT != events.ArrayTypeResourceID {
+		return "", 0, false
+	}
+	switch e.K {
+	case ev.STRARR:
+		return e.S, e.AT, true
+	case ev.ARR:
+		return string(e.B), e.AT, true
+	case ev.ABEGIN:
+		var b []byte
+		for _, x := range kev[1:] {
+			if x.K == ev.DATA {
+				b = append(b, x.B...)
+			}
+		}
+		return string(b), e.AT, true
+	}
+	return "", 0, false
 }
 
 func (g *streamGen) node(depth int) {
